@@ -845,6 +845,9 @@ func runC19(r *Run) {
 	for round := 0; round < r.N(1, 4); round++ {
 		r.bigdump19(round)
 	}
+	for round := 0; round < r.N(2, 12); round++ {
+		r.smalldump19(round)
+	}
 	rounds := r.N(4, 40)
 	for round := 0; round < rounds; round++ {
 		now := time.Now()
@@ -1090,5 +1093,5 @@ func runC19(r *Run) {
 			res.c.Close()
 		}
 	}
-	r.Finish("overlapping dumps of one cache: a first dump (1..300 entries, a sixth with ~10 KB answers) is held up inside a seeded write to its consumer (the gzip header or a later one) while 1-2 further dumps (writeDump or GET /dump, a quarter held up too) run and the cache is updated between them (nothing / same-size / smaller / unrelated answers, new names, GET /flush + partial refill), consumers released in seeded order, one final undisturbed dump; every dump is reloaded: it loads without error, every reloaded entry equals (answer and times to the second) a version the cache held under that key at some moment while that dump ran, entries live and untouched for the whole dump are present, no foreign keys; when the first dump was parked in the first write of a one-block dump and the next ran start to end, the same interleaving is run on the model (ovl); entries are keyed by getMsgKey of seeded client questions: mostly ordinary (A/AAAA/HTTPS/MX/TXT/PTR IN, short names), about four in ten unusual but legal (ANY / AXFR / IXFR / TSIG / TA / DLV / TYPE128..255 / any 16-bit type, class CH / HS / NONE / ANY, names of 128..247 octets, AD / CD / DO), so dumped keys hold octets >= 0x80 next to plain ASCII ones; restart scenarios on the plugin paths: 1..260 questions -> getMsgKey -> saveRespToCache (answers, NXDOMAIN, empty + SOA; lazy cache on / off), GET /dump, POST /load_dump into an empty cache, both 200, same number of entries, every question looked up in both caches with getRespFromCache: same hit / lazy flag, same records, TTLs within a second (one-block caches: the keys are also run through the model writer, wr); rcode scenarios: 24..290 seeded questions through Cache.Exec with an upstream that answers, off the wire (Pack -> Unpack), with every rcode 0..23 (16..23 carried by an OPT record), a few of 24..4095 and ordinary answers around them; whatever the plugin kept is dumped (writeDump or GET /dump): the dump succeeds, loads without error, every entry the cache held is there with the same answer, rcode and times, nothing else is, and up to 60 questions are asked of both caches with no upstream behind them: same hit / rcode / records, TTLs within a second (skipped when the machine stalls beyond the 5 s SERVFAIL lifetime); one big cache (thorough: 4): 700..900 (thorough: up to 2400) TXT answers of 14..19 KiB incompressible key material stored with saveRespToCache, GET /dump over a real HTTP connection (httptest server), the 9..14 MiB body (thorough: up to ~35 MiB) posted to /load_dump of an empty cache on another server: 200, same number of entries, every entry equal (answer, times) both through the API and through readDump; then caches of {0,1,5,127,128,129,256,300} entries (a quarter with ~10 KB answers, 130..190 entries) with random ages, a sixth message-expired but still stored, a sixth already out of the store; dump -> load into an empty cache -> compare keys, answers, times and served TTLs; truncation of the compressed dump at seeded points + the whole gzip header and trailer (thorough: every byte of small dumps); crafted gzip streams with block lengths {0,1,7,2^20,2^20+1,2^31,...,2^64-1}; random bytes, wrong header names, bit flips; non-trivial = dump with live entries / cut that leaves more than a header / every hostile file")
+	r.Finish("overlapping dumps of one cache: a first dump (1..300 entries, a sixth with ~10 KB answers) is held up inside a seeded write to its consumer (the gzip header or a later one) while 1-2 further dumps (writeDump or GET /dump, a quarter held up too) run and the cache is updated between them (nothing / same-size / smaller / unrelated answers, new names, GET /flush + partial refill), consumers released in seeded order, one final undisturbed dump; every dump is reloaded: it loads without error, every reloaded entry equals (answer and times to the second) a version the cache held under that key at some moment while that dump ran, entries live and untouched for the whole dump are present, no foreign keys; when the first dump was parked in the first write of a one-block dump and the next ran start to end, the same interleaving is run on the model (ovl); entries are keyed by getMsgKey of seeded client questions: mostly ordinary (A/AAAA/HTTPS/MX/TXT/PTR IN, short names), about four in ten unusual but legal (ANY / AXFR / IXFR / TSIG / TA / DLV / TYPE128..255 / any 16-bit type, class CH / HS / NONE / ANY, names of 128..247 octets, AD / CD / DO), so dumped keys hold octets >= 0x80 next to plain ASCII ones; restart scenarios on the plugin paths: 1..260 questions -> getMsgKey -> saveRespToCache (answers, NXDOMAIN, empty + SOA; lazy cache on / off), GET /dump, POST /load_dump into an empty cache, both 200, same number of entries, every question looked up in both caches with getRespFromCache: same hit / lazy flag, same records, TTLs within a second (one-block caches: the keys are also run through the model writer, wr); rcode scenarios: 24..290 seeded questions through Cache.Exec with an upstream that answers, off the wire (Pack -> Unpack), with every rcode 0..23 (16..23 carried by an OPT record), a few of 24..4095 and ordinary answers around them; whatever the plugin kept is dumped (writeDump or GET /dump): the dump succeeds, loads without error, every entry the cache held is there with the same answer, rcode and times, nothing else is, and up to 60 questions are asked of both caches with no upstream behind them: same hit / rcode / records, TTLs within a second (skipped when the machine stalls beyond the 5 s SERVFAIL lifetime); one big cache (thorough: 4): 700..900 (thorough: up to 2400) TXT answers of 14..19 KiB incompressible key material stored with saveRespToCache, GET /dump over a real HTTP connection (httptest server), the 9..14 MiB body (thorough: up to ~35 MiB) posted to /load_dump of an empty cache on another server: 200, same number of entries, every entry equal (answer, times) both through the API and through readDump; two caches (thorough: 12) configured with a size below the documented minimum (1, 2, 4, 16, 64, 256, 1023 or seeded 1..1023; pkg/cache holds 1024 entries for all of them; the first always size 1 or 4), filled until 850..1000 entries are live with 1..4 A records / 1..2 KiB / 14..19 KiB of TXT key material, GET /dump over real HTTP, body posted (Content-Length or chunked) to /load_dump of an empty cache of the same configured size: 200, same number of entries, every entry equal (answer, times); then caches of {0,1,5,127,128,129,256,300} entries (a quarter with ~10 KB answers, 130..190 entries) with random ages, a sixth message-expired but still stored, a sixth already out of the store; dump -> load into an empty cache -> compare keys, answers, times and served TTLs; truncation of the compressed dump at seeded points + the whole gzip header and trailer (thorough: every byte of small dumps); crafted gzip streams with block lengths {0,1,7,2^20,2^20+1,2^31,...,2^64-1}; random bytes, wrong header names, bit flips; non-trivial = dump with live entries / cut that leaves more than a header / every hostile file")
 }
